@@ -3,7 +3,7 @@ import re
 import lm
 import rules
 from lm import S, strip, cval, walk
-from props.common import Ctx, has, fmt_facts, guard_retvals
+from props.common import Ctx, has, fmt_facts, guard_retvals, expand_assumes
 from props.cmp import narrowing_findings
 from units import AnalysisBroken
 
@@ -352,4 +352,113 @@ def run(ck, P):
     okm = bool(mk) and all((cval(strip(e.rhs)["args"][0]) or 0) & E["M_MAP_VAL_ALLOW_UPDATE"] and S(strip(e.rhs)["args"][1]) == "mem_dtor" for e in mk)
     ck.ob("C09.7-SUBSCRIPTIONS", sb.site("map allows update"), okm, "subscriptions map = %s" % [S(e.rhs) for e in mk])
 
+    # ------------------------------------------------------------------ 8. library-internal sources have a key space of their own
+    keyspace_obligations(ck, P, X, "C09.8-INTERNAL-KEYSPACE", cmps, E)
+
     ck.not_decided += ["set behaviour over arbitrary key sequences given a correct comparator (C11)", "regcomp semantics"]
+
+
+INTERNAL = 128      # M_SRC_INTERNAL (checked against the macro's expansion at the registration sites: constant flags & 128)
+
+
+def internal_registrations(P):
+    """[(event, T, key_string, userptr_string)] — registrations the library makes for itself (constant flags with M_SRC_INTERNAL)."""
+    out = []
+    for f in P.funcs:
+        for ev in f.calls():
+            if not ev.callee or not (ev.callee == "register_mod_src" or re.match(r"m_mod_src_register_\w+$", ev.callee)):
+                continue
+            if ev.callee == "register_mod_src":
+                if len(ev.args) < 5:
+                    continue
+                T, key, fl, up = cval(ev.args[1]), ev.args[2], cval(ev.args[3]), ev.args[4]
+            else:
+                w = P.fn(ev.callee, SRC)
+                inner = [c for c in w.calls("register_mod_src")]
+                if not inner or len(ev.args) < 4:
+                    continue
+                T, key, fl, up = cval(inner[0].args[1]), ev.args[1], cval(ev.args[2]), ev.args[3]
+            if fl is None or not (fl & INTERNAL) or T is None:
+                continue
+            out.append((ev, T, S(key), S(up)))
+    return out
+
+
+def keyspace_obligations(ck, P, X, rule, cmps, E):
+    ck.rule(rule, "R-KEYSPACE: for every source kind in which the library registers sources for itself (constant M_SRC_INTERNAL), the kind's "
+            "comparator never reports an internal and a user source as equal, nor two internal sources with different userptr; user "
+            "deregistration builds a key without M_SRC_INTERNAL; the library removes its own source only through a key with "
+            "M_SRC_INTERNAL and the userptr it registered it with", floor=4)
+    regs = internal_registrations(P)
+    ck.need(len(regs) >= 2, "internal registrations (token bucket refill, batch timeout) vanished")
+    kinds = sorted({T for (_e, T, _k, _u) in regs})
+    DIFF = re.compile(r"^\(\((\w+)->flags & %d\) == \((\w+)->flags & %d\)\)$" % (INTERNAL, INTERNAL))
+    for T in kinds:
+        f = P.fn(cmps[T], SRC)
+        ck.analysed(f)
+        ups = sorted({u for (_e, t, _k, u) in regs if t == T})
+        ex = rules.Expander(f, stable=True)
+        bad = None
+        n = 0
+        for path in f.paths():
+            a = expand_assumes(f, rules.path_assumes(path))
+            rets = [e for e in rules.path_events(f, path) if e.kind == "ret" and e.e is not None]
+            if not rets:
+                continue
+            n += 1
+            r = ex.at(rets[-1], rets[-1].e)
+            same = [k for k, v in a.items() if DIFF.match(k)]
+            # (i) internal-ness: either the path established that both sides agree, or it returns the order of the two flags
+            if not any(a[k] is True for k in same):
+                if not (re.search(r"\w+->flags & %d\) [<>] \(\w+->flags & %d" % (INTERNAL, INTERNAL), r) and any(a[k] is False for k in same)):
+                    bad = ("a path returns %s without having told an internal source from a user source" % r[:80], path)
+                    break
+                continue
+            # (ii) two internal sources: told apart by userptr
+            if len(ups) > 1:
+                both_user = any(re.match(r"^\(\w+->flags & %d\)$" % INTERNAL, k) and v is False for k, v in a.items())
+                up_eq = [k for k, v in a.items() if re.match(r"^\((\w+)->userptr == (\w+)->userptr\)$", k)]
+                if both_user or any(a[k] is True for k in up_eq):
+                    continue
+                if any(a[k] is False for k in up_eq) and re.search(r"->userptr [<>] \w+->userptr", r):
+                    continue
+                bad = ("a path returns %s for two internal sources without comparing their userptr (%s are registered)" % (r[:80], ups), path)
+                break
+        ck.ob(rule, f.site("internal sources ordered apart"), bad is None and n > 0,
+              "%s: all %d path(s) tell internal from user sources first%s" % (f.name, n, ", then internal sources by userptr" if len(ups) > 1 else "") if bad is None
+              else bad[0] + ": a user source with the same key clashes with the library's own (registration refused with -EEXIST, user "
+              "deregistration removes the internal source, the library's removal takes the user's)",
+              path=rules.fmt_path(f, bad[1]) if bad else None)
+    # user deregistration: the key is in the user key space
+    dm = P.fn("deregister_mod_src", SRC)
+    ck.analysed(dm)
+    kst = [e for e in dm.events() if e.kind in ("assign", "incdec") and re.search(r"\bkey\.(flags|userptr)$", S(e.lhs))]
+    kd = [e for e in dm.events() if e.kind == "decl" and e.e.get("name") == "key"]
+    zero = bool(kd) and kd[0].rhs is not None and strip(kd[0].rhs)["k"] == "init" and not re.search(r"[^{}0, ]", S(kd[0].rhs))
+    ck.ob(rule, dm.site("user key space"), not kst and zero, "the key-only source of a user deregistration is zero-initialised and its flags are never set" if not kst and zero
+          else "deregister_mod_src builds a key with flags/userptr set (%s): a user can reach internal sources" % [S(e.e) for e in kst])
+    # the library removes its own sources through an internal key with the registered userptr
+    removers = {}
+    for f in P.funcs:
+        if f.unit != SRC:
+            continue
+        rm = [e for e in f.calls("m_bst_remove") if "->srcs[" in S(e.args[0]) and S(e.args[1]) == "&key"]
+        fl = [e for e in f.events() if e.kind == "assign" and S(e.lhs) == "key.flags" and (cval(e.rhs) or 0) & INTERNAL]
+        up = [e for e in f.events() if e.kind == "assign" and S(e.lhs) == "key.userptr" and strip(e.rhs)["k"] == "var" and strip(e.rhs).get("vk") == "param"]
+        if rm and fl and up:
+            pi = [i for i, p_ in enumerate(f.params) if p_["name"] == strip(up[0].rhs)["name"]]
+            ki = [i for i, p_ in enumerate(f.params) if "m_src_" in p_["t"] or p_["name"] in ("its", "src_data")]
+            if pi and ki and all(f.ev_dominates(x, rm[0]) for x in (fl[0], up[0])):
+                removers[f.name] = (ki[0], pi[0])
+                ck.analysed(f)
+    for (ev, T, key, up) in regs:
+        f = ev.fn
+        ck.analysed(f)
+        ck.call_sites += 1
+        rms = [c for c in f.calls() if c.callee in removers or (c.callee and re.match(r"m_mod_src_deregister_\w+$", c.callee)) or c.callee == "deregister_mod_src"]
+        rms = [c for c in rms if any(S(a) == key for a in c.args)]
+        ok = bool(rms) and all(c.callee in removers and S(c.args[removers[c.callee][0]]) == key and S(c.args[removers[c.callee][1]]) == up for c in rms)
+        ck.ob(rule, f.site("own source %s removed through an internal key" % key), ok,
+              "%s registers %s internally with userptr %s and removes it through %s" % (f.name, key, up, sorted({c.callee for c in rms})) if ok else
+              "%s registers %s internally (userptr %s) but removes it through %s: a key without M_SRC_INTERNAL / with another userptr never finds it "
+              "(the old timer stays armed) or finds a user's source instead" % (f.name, key, up, [S(c.e)[:70] for c in rms] or "nothing"))
